@@ -7,6 +7,19 @@
   exact field, with `+`, `max`, `min`) and an abstract chunk carrier `C` (tensors, with
   `torch.cat` along a dimension).  TE/Lemmas/Plumb.lean proves the refinement for every
   well-formed row; TE/Gen/Plumbing.lean is the generated table.
+
+  A row is a list of FACTS.  `num` / `lst` say how a state is accumulated; the other
+  constructors are supplementary facts about control flow the translator found literally in the
+  source (and whose absence or mismatch makes the row ill-formed):
+    `adopt`  the scalar→vector adoption branch of MeanSquaredError / R2Score,
+    `task`   an update that accumulates row by row in a `for i in range(self.num_tasks)` loop,
+    `der`    a state recomputed from two others (`data_range = max_target - min_target`),
+    `const`  a registered state no method writes (a configuration value kept as a state),
+    `cmp`    merge_state() first compacts the object's own chunk list (AUC).
+  A class whose states are written only JOINTLY by one combine method (Covariance: the Chan / Welford combine)
+  has the single fact `welford`; its meaning is `welfordImpl`.  The retrieval classes (two per-query lists of
+  retained (score, label) pairs, pruned to the top k by update() and only concatenated by merge_state()) have
+  the single fact `topk`; its meaning is `topkImpl`, and it describes the code AS IT IS.
 -/
 import TE.Model.ClassSM
 namespace TE.Plumb
@@ -15,6 +28,13 @@ open TE
 /-- the accumulation operators the translator recognises on numeric states. -/
 inductive NOp where
   | add | max | min
+deriving DecidableEq, Repr
+
+/-- a concatenation dimension: a literal, or the value of a constant state of the object
+    (`Cat` keeps its `dim` as a registered state and reads the SOURCE's `dim` in merge_state). -/
+inductive Dim where
+  | lit (d : Int)
+  | st (name : String)
 deriving DecidableEq, Repr
 
 inductive FieldPlumb where
@@ -26,7 +46,38 @@ inductive FieldPlumb where
       `torch.cat(source.<src>, dim)` for every source whose `<guard>` list is non-empty;
       `compute` reads it through `torch.cat(state, d)` for the `d` in `readDims`, through
       emptiness tests, and in `raw` other places. -/
-  | lst (name src guard : String) (dim : Int) (readDims : List Int) (raw : Nat)
+  | lst (name src guard : String) (dim : Dim) (readDims : List Dim) (raw : Nat)
+  /-- adoption: the numeric state `name` is not always accumulated with `+=`:
+      update() does `if self.<updGuard>.ndim == 0 and <summand of updGuard>.ndim == 1: self.name = summand
+      else: self.name += summand`, merge_state() does the same with `metric.<mrgGuard>` / `metric.<src>`
+      (`""` = the method has no such branch for this state). -/
+  | adopt (name updGuard mrgGuard : String)
+  /-- task-mapped update: update() accumulates `name` row by row,
+      `for i in range(<loop>): self.name[i] op= helper(row i of the arguments)`; `rows` is the number of
+      rows (first dimension) of the registered default, as an expression over the configuration. -/
+  | task (name loop rows : String)
+  /-- derived state: `self.name = self.a - self.b`, recomputed by update() (`inUpd`) and by merge_state()
+      (`inMrg`; `atEnd` = once after the loop over the sources, even when there is no source; otherwise inside
+      the loop) from the CURRENT values of `a` and `b`. -/
+  | der (name a b : String) (inUpd inMrg atEnd : Bool)
+  /-- a registered state that update() and merge_state() never write. -/
+  | const (name : String)
+  /-- merge_state() first compacts the object's own list: `self.name = [torch.cat(self.name, dim)]` when
+      every list state in `guards` is non-empty. -/
+  | cmp (name : String) (guards : List String) (dim : Dim)
+  /-- joint accumulator (Covariance): the states `n`, `sum`, `ss` are written only by ONE combine method, which
+      update() calls exactly once with the statistics of the batch (`same`) and merge_state() calls once per
+      source, in order, with the source's states in the positions of the statistics (`args`); `chan` = the body of
+      the combine is literally the three-branch Chan / Welford combine (`if n == 0: return` / `elif self.n == 0:`
+      adopt / else `ss += ss' + outer(δ, δ)·n·n'/(n+n')`, `sum += sum'`, `n += n'`). -/
+  | welford (n sum ss : String) (same args chan : Bool)
+  /-- per-query retained lists (RetrievalPrecision / RetrievalRecall): `vals[i]` / `labels[i]` hold the retained
+      scores / labels of query `i`, `for i in range(<loop>)` (`rows` = length of the registered default lists).
+      update() does `vals[i], idx = get_topk(cat([vals[i], scores of query i]), <k>)`,
+      `labels[i] = cat([labels[i], labels of query i]).gather(idx)` for every query present in the batch
+      (`updPrunes`), merge_state() does `state[i] = cat([state[i]] + [m.state[i] for m in metrics])` for both lists and
+      re-selects the top k afterwards iff `mrgPrunes`. -/
+  | topk (vals labels k loop rows : String) (updPrunes mrgPrunes : Bool)
 deriving DecidableEq, Repr
 
 structure ClassPlumb where
@@ -34,54 +85,143 @@ structure ClassPlumb where
   fields : List FieldPlumb
   /-- the reason the class is outside the translator's normal form (then `fields = []`). -/
   unsupported : Option String
+  /-- the configuration condition under which the row describes the class (`""` = always): a class whose
+      methods branch on a constructor flag (`if self.auto_range:`) gets one row per branch. -/
+  mode : String
 deriving Repr
 
 def FieldPlumb.name' : FieldPlumb → String
   | .num n _ _ _ _ => n
   | .lst n _ _ _ _ _ => n
+  | .adopt n _ _ => n
+  | .task n _ _ => n
+  | .der n _ _ _ _ _ => n
+  | .const n => n
+  | .cmp n _ _ => n
+  | .welford n _ _ _ _ _ => n
+  | .topk n _ _ _ _ _ _ => n
 
 /-- `(upd, mrg, src)` of a numeric field. -/
 def numOf (fs : List FieldPlumb) (f : String) : Option (NOp × NOp × String) :=
   match fs with
   | [] => none
   | .num n u m s _ :: rest => if n = f then some (u, m, s) else numOf rest f
-  | .lst .. :: rest => numOf rest f
+  | _ :: rest => numOf rest f
 
 /-- `(src, guard, dim)` of a list field. -/
-def lstOf (fs : List FieldPlumb) (f : String) : Option (String × String × Int) :=
+def lstOf (fs : List FieldPlumb) (f : String) : Option (String × String × Dim) :=
   match fs with
   | [] => none
   | .lst n s g d _ _ :: rest => if n = f then some (s, g, d) else lstOf rest f
-  | .num .. :: rest => lstOf rest f
+  | _ :: rest => lstOf rest f
+
+/-- `(updGuard, mrgGuard)` of an adopting field. -/
+def adoptOf (fs : List FieldPlumb) (f : String) : Option (String × String) :=
+  match fs with
+  | [] => none
+  | .adopt n ug mg :: rest => if n = f then some (ug, mg) else adoptOf rest f
+  | _ :: rest => adoptOf rest f
+
+def isTask (fs : List FieldPlumb) (f : String) : Bool :=
+  match fs with
+  | [] => false
+  | .task n _ _ :: rest => n == f || isTask rest f
+  | _ :: rest => isTask rest f
+
+/-- `(a, b, inUpd, inMrg, atEnd)` of a derived field. -/
+def derOf (fs : List FieldPlumb) (f : String) : Option (String × String × Bool × Bool × Bool) :=
+  match fs with
+  | [] => none
+  | .der n a b iu im ae :: rest => if n = f then some (a, b, iu, im, ae) else derOf rest f
+  | _ :: rest => derOf rest f
+
+/-- `(guards, dim)` of a list field compacted at the start of merge_state(). -/
+def cmpOf (fs : List FieldPlumb) (f : String) : Option (List String × Dim) :=
+  match fs with
+  | [] => none
+  | .cmp n gs d :: rest => if n = f then some (gs, d) else cmpOf rest f
+  | _ :: rest => cmpOf rest f
+
+/-- a state is derived only if it is not accumulated (an accumulated state of the same name takes precedence). -/
+def effDer (fs : List FieldPlumb) (f : String) : Option (String × String × Bool × Bool × Bool) :=
+  if (numOf fs f).isSome then none else derOf fs f
 
 def isLst (fs : List FieldPlumb) (f : String) : Bool := (lstOf fs f).isSome
+def isNum (fs : List FieldPlumb) (f : String) : Bool := (numOf fs f).isSome
 
-def dimOf (fs : List FieldPlumb) (f : String) : Int :=
-  match lstOf fs f with | some (_, _, d) => d | none => 0
+def dimOf (fs : List FieldPlumb) (f : String) : Dim :=
+  match lstOf fs f with | some (_, _, d) => d | none => .lit 0
 
-/-- well-formedness of one field inside its class (decidable: `decide` runs it on the
+def isConst (fs : List FieldPlumb) (f : String) : Bool :=
+  fs.any fun | .const n => n == f | _ => false
+
+def dimOk (fs : List FieldPlumb) : Dim → Bool
+  | .lit _ => true
+  | .st n => isConst fs n
+
+def hasAdopt (fs : List FieldPlumb) : Bool := fs.any fun | .adopt .. => true | _ => false
+def hasDer (fs : List FieldPlumb) : Bool := fs.any fun | .der .. => true | _ => false
+
+/-- well-formedness of one fact inside its class (decidable: `decide` runs it on the
     generated table). -/
 def wfField (fs : List FieldPlumb) : FieldPlumb → Bool
   | .num n u m s du => u == m && s == n && du
-  | .lst n s g d rd raw => s == n && isLst fs g && rd.all (· == d) && raw == 0
+  | .lst n s g d rd raw => s == n && isLst fs g && rd.all (· == d) && raw == 0 && dimOk fs d
+  | .adopt n ug mg =>
+      -- both methods have the branch, on the same guard state; the adopting state and the guard are additive
+      ug == mg && numOf fs n == some (.add, .add, n) && numOf fs ug == some (.add, .add, ug)
+  | .task n loop rows => isNum fs n && loop == rows && (adoptOf fs n).isNone
+  | .der n a b iu im _ => iu && im && isNum fs a && isNum fs b && (numOf fs n).isNone
+  | .const n => (numOf fs n).isNone && (lstOf fs n).isNone && (derOf fs n).isNone
+  | .cmp n gs d => isLst fs n && d == dimOf fs n && !gs.isEmpty && gs.all (isLst fs)
+  | .welford n s q same args chan => same && args && chan && n != s && n != q && s != q && fs.length == 1
+  | .topk v l _ loop rows _ _ => v != l && loop == rows && fs.length == 1
 
 def WF (P : ClassPlumb) : Bool :=
   P.unsupported.isNone && P.fields.all (wfField P.fields)
+
+/-- the rows whose meaning is `welfordImpl` (a joint accumulator) rather than `plumbImpl`. -/
+def isWelford (P : ClassPlumb) : Bool := P.fields.any fun | .welford .. => true | _ => false
+
+/-- the rows whose meaning is `topkImpl` (per-query retained lists). -/
+def isTopk (P : ClassPlumb) : Bool := P.fields.any fun | .topk .. => true | _ => false
+
+/-- `(updPrunes, mrgPrunes)` of a `topk` row. -/
+def topkFlags : List FieldPlumb → Bool × Bool
+  | [.topk _ _ _ _ _ u m] => (u, m)
+  | _ => (false, false)
+
+/-- the rows of the basic normal form: no adoption branch, no derived state (their theorems need no
+    hypothesis on the history). -/
+def Basic (P : ClassPlumb) : Bool := !hasAdopt P.fields && !hasDer P.fields
 
 /-! ## semantics -/
 
 /-- the operations of the carriers with the laws the refinement needs.  For tensors over an
     exact field: `+`, elementwise `max` / `min` with neutral elements `0`, `-inf`, `+inf`;
     `cat d` is `torch.cat(·, dim=d)`, and `cat_flat` is its associativity: replacing a run of
-    chunks by their concatenation along the SAME dimension does not change the concatenation. -/
+    chunks by their concatenation along the SAME dimension does not change the concatenation.
+    `scalar` / `vec` are the tests `ndim == 0` / `ndim == 1` of the adoption branch (a sum is 0-dim
+    iff both summands are: broadcasting); `sub` is the `-` of derived states; `rowAcc i o a c` is
+    `a[i] = o(a[i], c[i])` on a carrier whose elements have `ntasks` rows, and `row_fold` says that
+    accumulating every row is accumulating the tensor. -/
 structure Ops (A C : Type) where
   op : NOp → A → A → A
   unit : NOp → A
-  cat : Int → List C → C
+  cat : Dim → List C → C
   assoc : ∀ o a b c, op o (op o a b) c = op o a (op o b c)
   comm : ∀ o a b, op o a b = op o b a
   unit_left : ∀ o a, op o (unit o) a = a
   cat_flat : ∀ d (xs ys zs : List C), ys ≠ [] → cat d (xs ++ [cat d ys] ++ zs) = cat d (xs ++ ys ++ zs)
+  scalar : A → Bool
+  vec : A → Bool
+  scalar_unit : scalar (unit .add) = true
+  scalar_add : ∀ a b, scalar (op .add a b) = (scalar a && scalar b)
+  vec_scalar : ∀ a, vec a = true → scalar a = false
+  sub : A → A → A
+  ntasks : Nat
+  rowAcc : Nat → NOp → A → A → A
+  row_fold : ∀ o a c, (List.range ntasks).foldl (fun x i => rowAcc i o x c) a = op o a c
 
 /-- the object's registered states. -/
 structure St (A C : Type) where
@@ -90,7 +230,8 @@ structure St (A C : Type) where
 
 /-- what one valid `update()` call contributes to every state (the outputs of the functional
     `_update` helper / the arguments themselves; they do not depend on the object's state —
-    the translator checks that). -/
+    the translator checks that).  For a task-mapped state the contribution is the stack of the
+    helper's outputs on the rows of the arguments. -/
 structure Contrib (A C : Type) where
   num : String → A
   lst : String → C
@@ -101,16 +242,59 @@ def initSt (O : Ops A C) (fs : List FieldPlumb) : St A C where
   num f := match numOf fs f with | some (u, _, _) => O.unit u | none => O.unit .add
   lst _ := []
 
+/-- the new value of the accumulated numeric state `f` after `update()` — as the code computes it. -/
+def updNum (O : Ops A C) (fs : List FieldPlumb) (s : St A C) (b : Contrib A C) (f : String) : A :=
+  match numOf fs f with
+  | some (u, _, _) =>
+    match adoptOf fs f with
+    | some (ug, _) =>
+      if O.scalar (s.num ug) && O.vec (b.num ug) then b.num f else O.op u (s.num f) (b.num f)
+    | none =>
+      if isTask fs f then (List.range O.ntasks).foldl (fun x i => O.rowAcc i u x (b.num f)) (s.num f)
+      else O.op u (s.num f) (b.num f)
+  | none => s.num f
+
 def updSt (O : Ops A C) (fs : List FieldPlumb) (s : St A C) (b : Contrib A C) : St A C where
-  num f := match numOf fs f with | some (u, _, _) => O.op u (s.num f) (b.num f) | none => s.num f
+  num f := match effDer fs f with
+    | some (a, b', true, _, _) => O.sub (updNum O fs s b a) (updNum O fs s b b')
+    | _ => updNum O fs s b f
   lst f := match lstOf fs f with | some _ => s.lst f ++ [b.lst f] | none => s.lst f
 
-/-- one source folded into the target, as `merge_state` does inside its loop. -/
+/-- the accumulated numeric state `f` after one source has been folded in. -/
+def mrgNum (O : Ops A C) (fs : List FieldPlumb) (s t : St A C) (f : String) : A :=
+  match numOf fs f with
+  | some (_, m, src) =>
+    match adoptOf fs f with
+    | some (_, mg) =>
+      if O.scalar (s.num mg) && O.vec (t.num mg) then t.num src else O.op m (s.num f) (t.num src)
+    | none => O.op m (s.num f) (t.num src)
+  | none => s.num f
+
+/-- one source folded into the target, as `merge_state` does inside its loop (derived states are
+    recomputed by `mrgSt` below). -/
 def mrg1 (O : Ops A C) (fs : List FieldPlumb) (s t : St A C) : St A C where
-  num f := match numOf fs f with | some (_, m, src) => O.op m (s.num f) (t.num src) | none => s.num f
+  num f := mrgNum O fs s t f
   lst f := match lstOf fs f with
     | some (src, g, d) => if t.lst g ≠ [] then s.lst f ++ [O.cat d (t.lst src)] else s.lst f
     | none => s.lst f
+
+/-- the compaction of the object's own lists at the start of merge_state(). -/
+def compact (O : Ops A C) (fs : List FieldPlumb) (s : St A C) : St A C where
+  num := s.num
+  lst f := match cmpOf fs f with
+    | some (gs, d) => if gs.all (fun g => !(s.lst g).isEmpty) then [O.cat d (s.lst f)] else s.lst f
+    | none => s.lst f
+
+/-- derived states after merge_state(): recomputed from the merged values once after the loop
+    (`atEnd`), or inside the loop (then only when there is a source). -/
+def rederive (O : Ops A C) (fs : List FieldPlumb) (any : Bool) (s : St A C) : St A C where
+  num f := match effDer fs f with
+    | some (a, b, _, true, ae) => if ae || any then O.sub (s.num a) (s.num b) else s.num f
+    | _ => s.num f
+  lst := s.lst
+
+def mrgSt (O : Ops A C) (fs : List FieldPlumb) (s : St A C) (ss : List (St A C)) : St A C :=
+  rederive O fs (!ss.isEmpty) (ss.foldl (mrg1 O fs) (compact O fs s))
 
 /-- what `compute()` can see of the state: numeric states as such, list states through
     `torch.cat(state, dim)` and through emptiness. -/
@@ -130,7 +314,50 @@ def plumbImpl {R : Type} (O : Ops A C) (P : ClassPlumb) (g : View A C → Except
     Impl (Contrib A C) (St A C) R where
   init := initSt O P.fields
   upd s b := .ok (updSt O P.fields s b)
-  mrg s ss := .ok (ss.foldl (mrg1 O P.fields) s)
+  mrg s ss := .ok (mrgSt O P.fields s ss)
   out s := g (view O P.fields s)
+
+/-! ## joint accumulators -/
+
+/-- a combine with its neutral element (the registered defaults). -/
+structure JOps (J : Type) where
+  comb : J → J → J
+  e : J
+
+/-- the class state machine of a `welford` row: update() combines the state with the statistics of the batch,
+    merge_state() combines it with the state of every source in order — with the SAME combine. -/
+def welfordImpl {B J R : Type} (W : JOps J) (stat : B → J) (g : J → Except Err R) : Impl B J R where
+  init := W.e
+  upd s b := .ok (W.comb s (stat b))
+  mrg s ss := .ok (ss.foldl W.comb s)
+  out := g
+
+/-! ## per-query retained lists -/
+
+/-- the retained (score, label) pairs of one query: `cat2` concatenates, `sel` is the top-k selection of the
+    configured `k`, `obs` is what compute() depends on (for `k = None`: the multiset of pairs). -/
+structure TOps (C M : Type) where
+  cat2 : C → C → C
+  empty : C
+  sel : C → C
+  obs : C → M
+  assoc : ∀ a b c, cat2 (cat2 a b) c = cat2 a (cat2 b c)
+  empty_left : ∀ a, cat2 empty a = a
+  empty_right : ∀ a, cat2 a empty = a
+  obs_cat : ∀ a a' b b', obs a = obs a' → obs b = obs b' → obs (cat2 a b) = obs (cat2 a' b')
+
+/-- the class state machine of a `topk` row; a batch gives, per query, the pairs of that query (`none` = the query
+    does not occur in the batch: its entry is left alone). -/
+def topkImpl {C M R : Type} (T : TOps C M) (P : ClassPlumb) (g : (Nat → C) → Except Err R) :
+    Impl (Nat → Option C) (Nat → C) R where
+  init := fun _ => T.empty
+  upd s b := .ok fun i =>
+    match b i with
+    | some x => if (topkFlags P.fields).1 then T.sel (T.cat2 (s i) x) else T.cat2 (s i) x
+    | none => s i
+  mrg s ss := .ok fun i =>
+    let c := ss.foldl (fun a t => T.cat2 a (t i)) (s i)
+    if (topkFlags P.fields).2 then T.sel c else c
+  out := g
 
 end TE.Plumb
